@@ -115,6 +115,11 @@ func (store *Store) Put(ctx context.Context, key string, content []byte) error {
 	// We can't improve much on what we get by wrapping the stream interface;
 	//  we always end up using a streaming action on the very bottom because that's how file writing works
 	//   (especially since we care about controlling the write flow enough to be able to do the atomic move at the end).
+	if key == "" {
+		// The zero string given to a WriteCommitter means "abandon the write";
+		// don't silently discard the content and report success.
+		return fmt.Errorf("fsstore: cannot put content under the empty key")
+	}
 	wr, wrCommitter, err := store.PutStream(ctx)
 	if err != nil {
 		return err
